@@ -35,75 +35,13 @@ func runC12(c *Ctx) {
 	find := w.Func("client", "TransactionMap", "Find")
 	del := w.Func("client", "TransactionMap", "Delete")
 	writeRes := w.Func("client", "Transaction", "WriteResult")
-	wait := w.Func("client", "Transaction", "WaitForResult")
 	startRtx := w.Func("client", "Transaction", "StartRtxTimer")
 	trClose := w.Func("client", "Transaction", "Close")
 	closeAll := w.Func("client", "TransactionMap", "CloseAndDeleteAll")
 	const lockTr = "turn.Client.mutexTrMap"
 
 	// ---- C12.1
-	c.Rule("C12.1", "insert/delete pairing: in PerformTransaction, on every path from trMap.Insert(key, tr) to a return, one of: tr.WaitForResult() was called; tr.StartRtxTimer was called and the return is on the ignoreResult==true edge; trMap.Delete(key) with the same key was called", 1)
-	{
-		c.Anchor("C12.1", "PerformTransaction")
-		var ins *ssa.Call
-		w.eachInstr(perform, func(in ssa.Instruction) {
-			if call, ok := in.(*ssa.Call); ok && call.Call.StaticCallee() == insert {
-				ins = call
-			}
-		})
-		if ins == nil {
-			c.Bad("C12.1", fname(perform), "trMap.Insert", w.pos(perform.Pos()), "PerformTransaction no longer inserts into the transaction table: anchor gone")
-		} else {
-			type st struct{ waited, armed, deleted bool }
-			bad := ""
-			nRet := 0
-			seen := map[string]bool{}
-			var explore func(b *ssa.BasicBlock, s st, from int)
-			explore = func(b *ssa.BasicBlock, s st, from int) {
-				k := fmt.Sprintf("%d|%v|%d", b.Index, s, from)
-				if seen[k] {
-					return
-				}
-				seen[k] = true
-				for i := from; i < len(b.Instrs); i++ {
-					switch x := b.Instrs[i].(type) {
-					case *ssa.Call:
-						switch x.Call.StaticCallee() {
-						case wait:
-							s.waited = true
-						case startRtx:
-							s.armed = true
-						case del:
-							if w.sameKey(x.Call.Args[1], ins.Call.Args[1]) {
-								s.deleted = true
-							}
-						}
-					case *ssa.Return:
-						nRet++
-						ignore := false
-						for _, f := range w.factsAt(x) {
-							if f.Op == "true" && f.Truth && w.sameKey(f.X, perform.Params[3]) {
-								ignore = true
-							}
-						}
-						if !(s.waited || s.deleted || (s.armed && ignore)) {
-							bad = "the return at " + w.instrPos(x) + " leaves the transaction in the table with nobody waiting and no timer armed (or the result not ignored): it stays there for the life of the client"
-						}
-						return
-					}
-				}
-				for _, sb := range b.Succs {
-					explore(sb, s, 0)
-				}
-			}
-			explore(ins.Block(), st{}, indexIn(ins)+1)
-			if bad == "" {
-				c.OK("C12.1", fname(perform), "trMap.Insert", w.instrPos(ins), fmt.Sprintf("%d returns after the insert: each waited, deleted, or armed+ignore", nRet))
-			} else {
-				c.Bad("C12.1", fname(perform), "trMap.Insert", w.instrPos(ins), bad)
-			}
-		}
-	}
+	ruleTransactionPairing(c, "C12.1")
 
 	// ---- C12.2
 	c.Rule("C12.2", "completion belongs to the remover: each call of (*Transaction).WriteResult has as receiver result #0 of a trMap.Find(key) in the same function on its ok edge, is dominated by trMap.Delete(key) with the same key, and Client.mutexTrMap is held at the Find and at the Delete with no Unlock of it between them", 3)
@@ -575,4 +513,79 @@ func ruleLateResponsesIgnored(c *Ctx, rule string) {
 			c.Bad(rule, fname(handle), "not-found edge", w.pos(handle.Pos()), bad)
 		}
 	}
+}
+
+// ruleTransactionPairing (C12.1, shared with C14.6: the Refresh(0) sent by Close is the one
+// fire-and-forget transaction; it is only retransmitted, and only leaves the table, if its
+// timer is armed).
+func ruleTransactionPairing(c *Ctx, rule string) {
+	w := c.W
+	perform := w.Func("turn", "Client", "PerformTransaction")
+	insert := w.Func("client", "TransactionMap", "Insert")
+	del := w.Func("client", "TransactionMap", "Delete")
+	wait := w.Func("client", "Transaction", "WaitForResult")
+	startRtx := w.Func("client", "Transaction", "StartRtxTimer")
+	c.Rule(rule, "insert/delete pairing: in PerformTransaction, on every path from trMap.Insert(key, tr) to a return, one of: tr.WaitForResult() was called; tr.StartRtxTimer was called and the return is on the ignoreResult==true edge; trMap.Delete(key) with the same key was called", 1)
+	{
+		c.Anchor(rule, "PerformTransaction")
+		var ins *ssa.Call
+		w.eachInstr(perform, func(in ssa.Instruction) {
+			if call, ok := in.(*ssa.Call); ok && call.Call.StaticCallee() == insert {
+				ins = call
+			}
+		})
+		if ins == nil {
+			c.Bad(rule, fname(perform), "trMap.Insert", w.pos(perform.Pos()), "PerformTransaction no longer inserts into the transaction table: anchor gone")
+		} else {
+			type st struct{ waited, armed, deleted bool }
+			bad := ""
+			nRet := 0
+			seen := map[string]bool{}
+			var explore func(b *ssa.BasicBlock, s st, from int)
+			explore = func(b *ssa.BasicBlock, s st, from int) {
+				k := fmt.Sprintf("%d|%v|%d", b.Index, s, from)
+				if seen[k] {
+					return
+				}
+				seen[k] = true
+				for i := from; i < len(b.Instrs); i++ {
+					switch x := b.Instrs[i].(type) {
+					case *ssa.Call:
+						switch x.Call.StaticCallee() {
+						case wait:
+							s.waited = true
+						case startRtx:
+							s.armed = true
+						case del:
+							if w.sameKey(x.Call.Args[1], ins.Call.Args[1]) {
+								s.deleted = true
+							}
+						}
+					case *ssa.Return:
+						nRet++
+						ignore := false
+						for _, f := range w.factsAt(x) {
+							if f.Op == "true" && f.Truth && w.sameKey(f.X, perform.Params[3]) {
+								ignore = true
+							}
+						}
+						if !(s.waited || s.deleted || (s.armed && ignore)) {
+							bad = "the return at " + w.instrPos(x) + " leaves the transaction in the table with nobody waiting and no timer armed (or the result not ignored): it stays there for the life of the client"
+						}
+						return
+					}
+				}
+				for _, sb := range b.Succs {
+					explore(sb, s, 0)
+				}
+			}
+			explore(ins.Block(), st{}, indexIn(ins)+1)
+			if bad == "" {
+				c.OK(rule, fname(perform), "trMap.Insert", w.instrPos(ins), fmt.Sprintf("%d returns after the insert: each waited, deleted, or armed+ignore", nRet))
+			} else {
+				c.Bad(rule, fname(perform), "trMap.Insert", w.instrPos(ins), bad)
+			}
+		}
+	}
+
 }
